@@ -165,6 +165,13 @@ def key_eq(m, a, b):
             return va.tag == vb.tag
     if isinstance(va, (int, bool, str)) and isinstance(vb, (int, bool, str)):
         return va == vb
+    if isinstance(va, Adt) and va.ty == 'LTerm' and isinstance(vb, Adt) and vb.ty == 'LTerm':
+        # shortcut for the overwhelmingly common case of map keys: two *variables* are equal iff their ids are
+        # (exactly the Var/Var arm of <LTerm as PartialEq>::eq, which the C21 check executes from MIR); any other
+        # combination goes through the crate's eq below
+        ia, ib = _var_id(m, va), _var_id(m, vb)
+        if ia is not None and ib is not None and not is_sym(ia) and not is_sym(ib):
+            return ia == ib
     if is_sym(va) or is_sym(vb):
         if isinstance(va, bool) or isinstance(vb, bool) or (is_sym(va) and z3.is_bool(va)):
             return truth(m, (va if is_sym(va) else z3.BoolVal(va)) == (vb if is_sym(vb) else z3.BoolVal(vb)))
@@ -184,6 +191,23 @@ def key_eq(m, a, b):
     if name is None:
         return structural_eq(m, va, vb)
     return truth(m, m.call_fn(name, [ra, rb]), 'key eq')
+
+
+def _var_id(m, t):
+    inner = t.fields[0]
+    for _ in range(4):
+        if isinstance(inner, Ref):
+            inner = load(inner, None)
+        elif isinstance(inner, Adt) and inner.ty == 'Rc':
+            inner = inner.fields[0]
+        else:
+            break
+    if isinstance(inner, Lazy):
+        inner = m.ctx.lazy.get(inner.id)
+    if isinstance(inner, Adt) and inner.ty == 'LTermInner' and m.p.enums['LTermInner'][inner.var] == 'Var':
+        vid = inner.fields[0]
+        return vid.fields[0] if isinstance(vid, Adt) else vid
+    return None
 
 
 def structural_eq(m, a, b):
@@ -213,8 +237,22 @@ def elems(m, v):
 
 
 def iter_order(m, n):
-    """Order in which a hash container of n elements is iterated."""
-    return list(range(n))
+    """Order in which a hash container of n elements is iterated.  Default: insertion order.  In
+    `fork` mode (C09) the order of the first few iterations is a symbolic choice: any rotation, and
+    for n <= 3 any permutation, of the insertion order."""
+    if n < 2 or getattr(m, 'hash_mode', 'insertion') != 'fork':
+        return list(range(n))
+    left = getattr(m, 'hash_forks_left', 0)
+    if left <= 0:
+        return list(range(n))
+    m.hash_forks_left = left - 1
+    import itertools
+    if n <= 3:
+        perms = list(itertools.permutations(range(n)))
+    else:
+        perms = [tuple((i + r) % n for i in range(n)) for r in range(n)]
+    i = m.ctx.choose([True] * len(perms), 'hash iteration order')
+    return list(perms[i])
 
 
 # ----------------------------------------------------------------------------------------------
